@@ -740,7 +740,7 @@ def _embeds_partial(fields, env, seen=None):
     nested complete structs), a struct/union that this case declares with '...;' ?"""
     seen = seen or set()
     partial_tags = set(x['d']['tag'] for x in env['items']
-                       if x['d']['k'] == 'struct' and x['how'] == 'flex' and x['what'] == 'struct-dots')
+                       if x['d']['k'] == 'struct' and x['how'] == 'flex' and x['what'].startswith('struct-dots'))
     by_tag = dict((x['d']['tag'], x['d']) for x in env['items'] if x['d']['k'] == 'struct')
     spec = env['case']['spec']
 
